@@ -23,7 +23,9 @@ EXHAUSTIVE = {"quick": False, "thorough": False}
 RULE = ("all ordered forests with up to 5 Sections (thorough: 6) -- every shape -- x deterministic name assignments "
         "over the prefix-related alphabet {a, ab, abc, 'a b', 'a.b', b, ba, abcd} (all injective assignments for sibling groups "
         "of size <= 2, rotations for larger groups) x 0-1 Properties per Section; all ordered pairs, all starts, all "
-        "depths; plus seeded random trees of 50-300 nodes; non-trivial = tree with >= 2 Sections; distinct = hash of "
+        "depths; plus seeded random trees of 50-300 nodes; plus trees of 6-16 Sections that got their shape through 4-12 public "
+        "edits (moves by append / insert / parent=, index assignment with sibling names, renames, reorders, removals, clones; "
+        "refused ones included), laws monitored after every edit; non-trivial = tree with >= 2 Sections; distinct = hash of "
         "the (shape, names) encoding")
 ASSUMPTIONS = ["names are free of '/' and ':' and differ from '.' and '..'",
                "shapes are enumerated completely up to the bound, name assignments are sampled (see rule)",
@@ -332,6 +334,9 @@ def run_case(case, ctx):
             doc = build(case["shape"], case["variant"], case["props"])
             rec.case(core.h(case), _count(case["shape"]) >= 2)
             ok, res, calls = budget.run(lambda: check_tree(doc, rec, case, True), 50000000)
+        elif case["kind"] == "edited":
+            rec.case(core.h(case), True)
+            ok, res, calls = budget.run(lambda: edited_tree(ctx, rec, case), 400000000)
         else:
             doc = random_tree(ctx, case["i"], case["n"])
             rec.case(core.h(case), True)
@@ -344,10 +349,10 @@ def _count(shape):
     return sum(1 + _count(k) for k in shape)
 
 
-def random_tree(ctx, i, n):
+def random_tree(ctx, i, n, seed=None):
     import odml
     import random
-    rng = random.Random("C14|%s|%d" % (ctx.seed, i))
+    rng = random.Random("C14|%s|%d" % (ctx.seed if seed is None else seed, i))
     doc = odml.Document()
     secs = [doc]
     for k in range(n):
@@ -359,6 +364,92 @@ def random_tree(ctx, i, n):
             odml.Property(rng.choice(NAMES), values=[k], parent=s)
         secs.append(s)
     return doc
+
+
+EDIT_OPS = ["move-append", "move-insert", "move-parent", "prop-move-append", "prop-move-insert", "sec-setitem-new",
+            "sec-setitem-moved", "prop-setitem-new", "rename", "prop-rename", "reorder", "prop-reorder", "remove-readd",
+            "clone-append", "extend", "create"]
+
+
+def edited_tree(ctx, rec, case):
+    """A tree that got its shape through a history of public edits (moves between parents by append / insert /
+    parent=, index assignment, renames, reorders, removals, clones), refused ones included; the path and traversal laws
+    are monitored after every step.  Names stay inside the alphabet of the assumptions."""
+    import odml
+    import random
+    seed = case.get("seed", ctx.seed)
+    rng = random.Random("C14e|%s|%d" % (seed, case["i"]))
+    doc = random_tree(ctx, 100000 + case["i"], case["n"], seed)
+    case["trace"] = []
+    for step in range(case["ops"]):
+        secs = all_sections(doc)
+        props = [p for s in secs for p in raw_props(s)]
+        op = rng.choice(EDIT_OPS)
+        x = rng.choice(secs)
+        t = rng.choice([doc] + secs)
+        ts = rng.choice(secs)
+        if "setitem" in op:
+            t = rng.choice([o for o in [doc] + secs if raw_secs(o)])
+            ts = rng.choice([o for o in secs if raw_props(o)] or secs)
+        pos = rng.choice([0, 0, 1, -1, 2])
+        nm = rng.choice(NAMES)
+        note = op
+        try:
+            if op == "move-append":
+                t.append(x)
+            elif op == "move-insert":
+                t.insert(pos, x)
+            elif op == "move-parent":
+                x.parent = t
+            elif op in ("prop-move-append", "prop-move-insert") and props:
+                p = rng.choice(props)
+                if op == "prop-move-append":
+                    ts.append(p)
+                else:
+                    ts.insert(pos, p)
+            elif op == "sec-setitem-new" and raw_secs(t):
+                kids = raw_secs(t)
+                # the new name is, more often than not, the one of a sibling (first, last or any)
+                nm = rng.choice([kids[0].name, kids[-1].name, rng.choice(kids).name, nm])
+                k = rng.choice([0, len(kids) - 1, -1, rng.randrange(len(kids))])
+                t.sections[k] = odml.Section(nm, rng.choice(TYPES))
+            elif op == "sec-setitem-moved" and raw_secs(t):
+                kids = raw_secs(t)
+                t.sections[rng.randrange(len(kids))] = x
+            elif op == "prop-setitem-new" and raw_props(ts):
+                kids = raw_props(ts)
+                nm = rng.choice([kids[0].name, kids[-1].name, nm])
+                ts.properties[rng.choice([0, len(kids) - 1, -1])] = odml.Property(nm, values=[step])
+            elif op == "rename":
+                x.name = nm
+            elif op == "prop-rename" and props:
+                rng.choice(props).name = nm
+            elif op == "reorder":
+                x.reorder(rng.choice([0, -1, 1]))
+            elif op == "prop-reorder" and props:
+                rng.choice(props).reorder(rng.choice([0, -1, 1]))
+            elif op == "remove-readd":
+                par = x.parent
+                par.remove(x)
+                (t if rng.random() < 0.5 else par).append(x)
+            elif op == "clone-append":
+                t.append(x.clone())
+            elif op == "extend":
+                t.extend([odml.Section(nm, "t"), odml.Section(rng.choice(NAMES), "u")])
+            elif op == "create":
+                t.create_section(nm, "t")
+            else:
+                note = op + ":skipped"
+        except Exception as exc:
+            note = op + ":refused-" + type(exc).__name__
+        case["trace"].append(note)
+        rec.count("edit-ops", note)
+        if not all_sections(doc):
+            break
+        before = sum(v["count"] for v in rec.violations.values())
+        check_tree(doc, rec, dict(case, failing_step=step, failing_op=note), False)
+        if sum(v["count"] for v in rec.violations.values()) != before:
+            break           # later steps would only repeat the consequences
 
 
 def run(ctx):
@@ -387,6 +478,11 @@ def run(ctx):
         if not ctx.mine(j):
             continue
         case = {"kind": "random", "i": j, "n": [50, 120, 300][j % 3]}
+        run_case(case, ctx)
+    for j in range(ctx.pick(160, 6000)):
+        if not ctx.mine(j):
+            continue
+        case = {"kind": "edited", "seed": ctx.seed, "i": j, "n": [6, 10, 16][j % 3], "ops": [4, 8, 12][(j // 3) % 3]}
         run_case(case, ctx)
 
 
